@@ -78,6 +78,24 @@ Section Facts6.
       - cbn [finish st_eqb andb] in H. destruct (fail_raise o); discriminate.
     Qed.
 
+    (* an exception in the post-hook, in EVERY regime (any mode, non-finite passes and raising-free earlier passes allowed): the
+       hook runs after the first stopping pass k0 when that pass ended finite (i.e. converged); its exception surfaces as
+       SolutionError chained to it and neither status nor iterations of the period are recorded *)
+    Theorem after_exception_surfaces_general k0 v'' c :
+      find_first stops 1 N = Some k0 ->
+      snd (evk num ev o t k0 (st_after num ev o t v1 (k0 - 1))) = None -> all_finite (chkseq k0) = true ->
+      afterk num after o t k0 (st_after num ev o t v1 k0) = (v'', Some c) ->
+      solve_t_M d o t s =
+      (mkState v'' (status s) (iters s) (log s ++ [EvBefore t] ++ pass_events t 1 k0 ++ [EvAfter t k0]),
+       Raise (SolutionError (Some c))).
+    Proof.
+      intros Ef Hnr Fc Ha.
+      rewrite (solve_t_complete_spec num sub absf ltb isfin zero ev before after d o t s p v1 Hmm Hp Hfeas Hoff Hpre Hb).
+      cbv zeta. fold c0 N. rewrite Ef. unfold SolverFacts4.result_at.
+      destruct (evk num ev o t k0 (st_after num ev o t v1 (k0 - 1))) as [v' r]. cbn [snd] in Hnr. subst r.
+      rewrite Fc, Ha. cbn [finish with_vals]. rewrite <- !app_assoc. reflexivity.
+    Qed.
+
     (* no zeroing before pass k  =>  the local vector is the stored vector up to pass k-1 *)
     Lemma lcur_eq_chkseq_no_zeroing k :
       (forall j, (j < k)%nat -> all_finite (lcur j) = true -> all_finite (chkseq (S j)) = true) ->
